@@ -11,7 +11,7 @@ from __future__ import annotations
 
 import ast
 
-from ..common import Ctx, src
+from ..common import Ctx, inline_locals, src
 from ..model import AnalysisError, bind_call, own_scope_nodes
 from ..cfg import names_in
 
@@ -343,6 +343,35 @@ def is_name_(n, name):
     return isinstance(n, ast.Name) and n.id == name
 
 
+# an option that has no meaning on a path selected by the kind of the operand: (operation, option) -> test
+IRRELEVANT = {
+    # transposing / conjugating a 1-D operand is the identity: `transpose` is meaningless in the vector branch
+    ("mode_dot", "transpose"): ("ndim", 1),
+}
+
+
+def _irrelevant_by_design(f, oname, ret) -> bool:
+    """the return is control-dependent on `ndim(<operand>) == 1` (written inline or through a local)"""
+    spec = IRRELEVANT.get((f.name, oname))
+    if spec is None:
+        return False
+    prim, val = spec
+    # statements that enclose the return
+    parents = {}
+    for p in ast.walk(f.node):
+        for c in ast.iter_child_nodes(p):
+            parents[c] = p
+    cur = ret
+    while cur in parents:
+        p = parents[cur]
+        if isinstance(p, ast.If) and any(cur is b or any(cur is x for x in ast.walk(b)) for b in p.body):
+            t = inline_locals(f.node, p.test)
+            if isinstance(t, ast.Compare) and len(t.ops) == 1 and isinstance(t.ops[0], ast.Eq) and isinstance(t.comparators[0], ast.Constant) and t.comparators[0].value == val and isinstance(t.left, ast.Call) and (getattr(t.left.func, "attr", None) == prim or getattr(t.left.func, "id", None) == prim):
+                return True
+        cur = p
+    return False
+
+
 def option_live(ctx: Ctx):
     repo, res = ctx.repo, ctx.res
     ops = []
@@ -370,4 +399,6 @@ def option_live(ctx: Ctx):
             tainted, bad = dependent_returns(f.node, roots, seeds)
             res.instance("OPTION-LIVE", f"{f.qname}:{oname}", sample={"option": oname, "influenced_names": sorted(tainted)[:12], "dead_returns": [src(b) for b in bad]})
             for r in bad:
+                if _irrelevant_by_design(f, oname, r):
+                    continue
                 ctx.finding("OPTION-LIVE", f, r, f"this return path of `{f.name}` is not influenced by the option `{oname}` in any way: the option is silently ignored on this path", construct=f"{src(r)} ignores {oname}")
